@@ -101,35 +101,116 @@ def sc_load_and_stores(prog):
     return False
 
 
+def op_results(prog, outcome):
+    """[(thread, pc, op tokens, result)] for the results listed in an outcome string"""
+    ths = threads_of(prog)
+    out = []
+    for tok in outcome.split(" ")[1:]:
+        m = re.match(r"(\d+):(\d+)=(.*)$", tok)
+        if m:
+            t, pc, r = int(m.group(1)), int(m.group(2)), m.group(3)
+            if t < len(ths) and pc < len(ths[t]):
+                out.append((t, pc, ths[t][pc], r))
+    return out
+
+
+def verdict(outcome):
+    return outcome.split(" ")[0] if outcome else ""
+
+
+def own_access_then_write(prog):
+    """F1 shape: a thread accesses a location and later writes it, and another thread accesses it"""
+    ths = threads_of(prog)
+    for t, ops in enumerate(ths):
+        seen = set()
+        for o in ops:
+            if o[0] in ATOMIC_READ or o[0] in ATOMIC_WRITE:
+                x = o[1]
+                if (o[0] in ATOMIC_WRITE and x in seen) or o[0] == "fupd":
+                    if any(p[0] in ATOMIC_READ | ATOMIC_WRITE and p[1] == x
+                           for u, ops2 in enumerate(ths) if u != t for p in ops2):
+                        return True
+                seen.add(x)
+    return False
+
+
+def successful_rmw_vs_write(prog, outcome):
+    """F4 shape: an RMW that succeeded in this outcome on a location another thread writes"""
+    ths = threads_of(prog)
+    for t, pc, op, r in op_results(prog, outcome):
+        if op[0] in RMW and not r.startswith("err"):
+            if any(p[0] in ATOMIC_WRITE and p[1] == op[1] for u, ops2 in enumerate(ths) if u != t for p in ops2):
+                return True
+    return False
+
+
+def three_writes_two_threads(prog):
+    """F3 shape: a location with at least three unconditional writes coming from at least two threads"""
+    ths = threads_of(prog)
+    uncond = ATOMIC_WRITE - {"cas", "cswp", "fupd"}
+    w, n = {}, {}
+    for t, ops in enumerate(ths):
+        for o in ops:
+            if o[0] in uncond:
+                w.setdefault(o[1], set()).add(t)
+                n[o[1]] = n.get(o[1], 0) + 1
+    return any(len(ts) >= 2 and n[x] >= 3 for x, ts in w.items())
+
+
+def unbranched_empty_test(prog):
+    """F7 shape: try_recv, or a Receiver dropped while a sender that it has not joined may still send"""
+    ths = threads_of(prog)
+    if has(prog, "tryrecv"):
+        return has(prog, "send")
+    senders = {t for t, ops in enumerate(ths) if any(o[0] == "send" for o in ops)}
+    for t, ops in enumerate(ths):
+        joined = set()
+        for o in ops:
+            if o[0] == "join":
+                joined.add(int(o[1]))
+            if o[0] == "droprx":
+                if any(u != t and u not in joined for u in senders):
+                    return True
+    return False
+
+
+ASSERTS = {"notNotified", "expectedLock", "expectedRead", "expectedWrite"}
+
 SIGNATURES = {
     # F4: a store is left unordered with an RMW although it is ordered after the store the RMW read
-    "rmw-atomicity": lambda p, kind, o: kind == "forbidden" and rmw_vs_write(p),
+    "rmw-atomicity": lambda p, kind, o: kind == "forbidden" and successful_rmw_vs_write(p, o),
     # F3: pointwise clock order is not the modification order (a read raises an old store's clock)
-    "coherence-clock-order": lambda p, kind, o: kind == "forbidden" and multi_writer_location(p),
+    "coherence-clock-order": lambda p, kind, o: kind == "forbidden" and three_writes_two_threads(p),
     # F2: fence(Acquire) acquires from every store seen by a thread that happens-before the fencing thread
     "fence-acquire-over-sync": lambda p, kind, o: kind in ("missing", "missed_failure") and has_fence(p, {"acq", "ar", "sc"}),
     # F16: a SeqCst load is not offered a SeqCst store when a clock-newer SeqCst store exists
     "seqcst-load-pruning": lambda p, kind, o: kind == "missing" and sc_load_and_stores(p),
     # F1: a thread's own access overwrites the single last-access slot of an atomic
-    "dpor-atomic-single-slot": lambda p, kind, o: kind in ("missing", "missed_failure") and shared_atomic_rw(p),
+    "dpor-atomic-single-slot": lambda p, kind, o: kind in ("missing", "missed_failure") and own_access_then_write(p),
     # F7: emptiness test of try_recv / Receiver::drop is not a branch point
-    "chan-unbranched-empty-test": lambda p, kind, o: kind in ("missing", "missed_failure")
-    and has(p, "tryrecv", "droprx") and has(p, "send"),
+    "chan-unbranched-empty-test": lambda p, kind, o: kind in ("missing", "missed_failure") and unbranched_empty_test(p),
     # F10: Inspect is not a dependence for RefDec / RefInc pairs
     "arc-inspect-not-dependent": lambda p, kind, o: kind in ("missing", "missed_failure")
     and in_two_threads(p, {"acount", "agetmut", "aunwrap"}, {"adrop", "aclone", "adec", "ainc", "aunwrap", "agetmut"}),
     # F9: a thread pending on a try-acquire is blocked by another thread's acquisition
-    "try-acquire-blocked": lambda p, kind, o: kind in ("forbidden", "missing") and has(p, "trylock", "tryrd", "trywr"),
-    # F5/F6/F17/F18: unpark wakes any blocked thread / token cleared or spent elsewhere / edge without park
-    "unpark-misdirected": lambda p, kind, o: has(p, "unpark") and has(p, *BLOCKING),
-    "unpark-token-cleared": lambda p, kind, o: has(p, "unpark") and has(p, "park") and has(p, "unlock", "unrd", "unwr", "send"),
-    "unpark-edge-without-park": lambda p, kind, o: kind in ("missed_failure", "forbidden", "missing") and has(p, "unpark"),
+    "try-acquire-blocked": lambda p, kind, o: has(p, "trylock", "tryrd", "trywr") and (
+        kind == "missing" or (kind == "forbidden" and verdict(o) == "deadlock")),
+    # F5/F6: unpark wakes a thread that is blocked on something else (internal assertion / token spent)
+    "unpark-misdirected": lambda p, kind, o: has(p, "unpark") and kind == "forbidden"
+    and (verdict(o) in ASSERTS or verdict(o) == "deadlock"),
+    # F18: a pending token is cleared by an unrelated release
+    "unpark-token-cleared": lambda p, kind, o: kind == "forbidden" and verdict(o) == "deadlock" and has(p, "unpark")
+    and has(p, "park") and has(p, "unlock", "unrd", "unwr", "send"),
+    # F17: unpark orders the unparker's past before the target at once, park or not
+    "unpark-edge-without-park": lambda p, kind, o: has(p, "unpark") and has(p, "crd", "cwr") and (
+        (kind == "missed_failure" and verdict(o).startswith("causality")) or (kind == "forbidden" and verdict(o) == "ok")),
+    # F19: park tests the token without a branch point and unpark is not a branch point either
+    "park-unbranched-token-test": lambda p, kind, o: kind in ("missing", "missed_failure") and has(p, "park")
+    and has(p, "unpark"),
     # F15: a stale park token makes Condvar::wait return while the thread stays queued
     "condvar-stale-token": lambda p, kind, o: has(p, "cvwait") and has(p, "unpark"),
-    # strong_count acquires (std uses a relaxed load): a race hidden behind acount
     # F12: a leaked raw allocation aborts the process instead of reporting "Allocation leaked"
     "raw-alloc-leak-abort": lambda p, kind, o: kind == "abort" and has(p, "alloc"),
-    "arc-count-acquires": lambda p, kind, o: kind == "missed_failure" and has(p, "acount"),
 }
 
 
